@@ -121,7 +121,13 @@ func FillCoverage(c *Ctx, out *Outcome) {
 	cov["node_invocations"] = inv
 	cov["node_invocations_per_hour"] = int64(float64(inv) / wall * 3600)
 	cov["histories_per_hour"] = int64(float64(s.Get("histories")) / wall * 3600)
-	cov["simulated_time"] = "none: goverter has no clock, timers or deadlines; progress is measured in steps (node invocations and disk calls)"
+	cov["simulated_time"] = map[string]any{
+		"note":                     "goverter has no timers or deadlines; progress is measured in steps (node invocations, disk calls). The one clock that matters is the go command's 2-second module-index rule (DESIGN N9/F9): the simulator owns it as a file-age regime per run",
+		"file_age_settled_runs":    s.Get("file_age.settled"),
+		"file_age_fresh_runs":      s.Get("file_age.fresh"),
+		"modification_clock_ticks": settleClock.Load(),
+		"wall_clock_per_gen_op_ms": int64(wall * 1000 / float64(max64(1, s.Get("gen_ops")))),
+	}
 	cov["steps_disk_calls_and_gens"] = s.Get("gen_ops")
 	cov["ref_runs"] = s.Get("ref_runs")
 	cov["shrink_runs"] = s.Get("shrink_runs")
@@ -176,4 +182,11 @@ func FillCoverage(c *Ctx, out *Outcome) {
 		"fmt %#v order of map keys (strings, structs of strings) is canonical",
 		"a crash loses exactly what had not been handed to the kernel by a completed write (no page-cache loss model)",
 		"the seam rewrite preserves behaviour (validated each run: identity-order node == unmodified binary on sampled worlds; rewritten range-site count == independent type-based count)")
+}
+
+func max64(a, b int64) int64 {
+	if a > b {
+		return a
+	}
+	return b
 }
